@@ -15,13 +15,16 @@ const TIME_UNITS: [(&str, u8); 14] = [
     ("second", 0), ("seconds", 0), ("minute", 1), ("minutes", 1), ("hour", 2), ("hours", 2), ("day", 3), ("days", 3),
     ("week", 4), ("weeks", 4), ("month", 5), ("months", 5), ("year", 6), ("years", 6),
 ];
-const JUNK_UNITS: [&str; 22] = ["x", "k", "kbb", "kbs", "bytes", "byte", "kb.", "k b", "m", "mbb", "pb", "secondss", "sec", "s", "min",
+const JUNK_UNITS: [&str; 30] = [
+    // characters that only case-fold to ASCII letters (KELVIN SIGN, LONG S, dotted capital I)
+    "\u{212A}b", "wee\u{212A}", "wee\u{212A}s", "\u{17F}econds", "m\u{130}nutes", "t\u{130}b", "\u{212A}ib", "day\u{17F}","x", "k", "kbb", "kbs", "bytes", "byte", "kb.", "k b", "m", "mbb", "pb", "secondss", "sec", "s", "min",
     "minuts", "hourss", "dayz", "mon", "yr", "second s", "é"];
 
 fn mixed_case(s: &str, rng: &mut Rng) -> String {
+    // ASCII case changes only: Unicode case mapping would turn look-alikes (U+017F, U+212A) into real units
     match rng.below(3) {
         0 => s.to_owned(),
-        1 => s.to_uppercase(),
+        1 => s.to_ascii_uppercase(),
         _ => s.chars().map(|c| if rng.chance(1, 2) { c.to_ascii_uppercase() } else { c }).collect(),
     }
 }
@@ -37,7 +40,7 @@ fn interesting_numbers(rng: &mut Rng) -> String {
             let d = rng.range(-2, 2) as i128;
             ((t as i128 + d) as u128).to_string()
         }
-        5 => format!("{}{}", 1 + rng.below(9), "0".repeat(17 + rng.usize_below(5))),
+        5 => format!("{}{}", 1 + rng.below(9), "0".repeat(6 + rng.usize_below(16))),
         6 => format!("00{}", rng.below(100)),
         _ => (rng.next_u64() >> rng.below(60)).to_string(),
     }
@@ -206,6 +209,19 @@ fn interval_case(rep: &mut Report, rng: &mut Rng, idx: u64) {
             found
         }
     };
+    // a literal that was accepted must also be usable: the trigger is built from it without panicking
+    if in_config && got.is_some() {
+        let doc = format!("{{\"interval\": {}}}", if as_int { lit.clone() } else { serde_json::to_string(&lit).unwrap() });
+        if let Ok(value) = serde_json::from_str::<serde_value::Value>(&doc) {
+            use log4rs::append::rolling_file::policy::compound::trigger::Trigger;
+            let r = trap::catch(|| log4rs::config::Deserializers::default().deserialize::<dyn Trigger>("time", value).map(|_| ()));
+            rep.count("time_triggers_built_from_accepted_literals", 1);
+            if let Err(p) = r {
+                rep.violation(&format!("C20:panic:building-trigger-from-accepted-interval:{}", if p.in_repo() { p.site() } else { "chrono".into() }),
+                    json!({"case": d, "panic": p.message}));
+            }
+        }
+    }
     rep.count("interval_literals", 1);
     if want.is_none() {
         rep.count("literals_expected_to_be_rejected", 1);
